@@ -66,12 +66,12 @@ def extract(relpath, qualname, rewrite_literals=True):
     return mod, meta, path
 
 
-def load(relpath, qualname, globs=None, loops=None, super_obj=None, rewrite_literals=True):
+def load(relpath, qualname, globs=None, loops=None, super_obj=None, rewrite_literals=True, literals=None):
     mod, meta, path = extract(relpath, qualname, rewrite_literals)
     g = {"__name__": "flowpaths.<extracted>"}
     g.update(BUILTINS)
     g.update(globs or {})
-    rt = RT(loops, qualname, super_obj)
+    rt = RT(loops, qualname, super_obj, literals)
     g.update(__pv=rt, __Break=Break_, __Continue=Continue_)
     code = compile(mod, path, "exec")
     exec(code, g)
@@ -92,7 +92,8 @@ class Unit:
     stub `self` (each asserting its own `requires` as a `pre` obligation and assuming its `ensures`)."""
 
     def __init__(self, relpath, qualname, harness, globs=None, loops=None, super_obj=None, props=(), assumptions=(),
-                 abstractions=(), name=None, replay=None, rewrite_literals=True, max_paths=2000, callee_contracts=()):
+                 abstractions=(), name=None, replay=None, rewrite_literals=True, max_paths=2000, callee_contracts=(), literals=None):
+        self.literals = literals
         self.relpath, self.qualname, self.harness = relpath, qualname, harness
         self.globs, self.loops, self.super_obj = globs or {}, loops or {}, super_obj
         self.props, self.assumptions, self.abstractions = list(props), list(assumptions), list(abstractions)
@@ -108,7 +109,7 @@ class Unit:
                    assumptions=self.assumptions, abstractions=self.abstractions, obligations=[], paths=0, aborted_paths=0,
                    callee_contracts=self.callee_contracts)
         try:
-            f, meta, rt = load(self.relpath, self.qualname, self.globs, self.loops, self.super_obj, self.rewrite_literals)
+            f, meta, rt = load(self.relpath, self.qualname, self.globs, self.loops, self.super_obj, self.rewrite_literals, self.literals)
         except (LookupError, SyntaxError, NotImplementedError, OSError) as e:
             res.update(status="unsupported", reason="extraction failed: %s: %s" % (type(e).__name__, e))
             res["wall_s"] = round(time.time() - t0, 3)
